@@ -189,6 +189,8 @@ def install(it):
 
     @nat("dict")
     def _dict(it, *a, **k):
+        if a and isinstance(a[0], Opaque):
+            return Opaque(f"dict({a[0].why})")
         d = PDict()
         if a:
             it.dict_update(d, a[0])
@@ -223,6 +225,10 @@ def install(it):
     def _list(it, *a):
         if not a:
             return []
+        if isinstance(a[0], Opaque):
+            return Opaque(f"list({a[0].why})")
+        if isinstance(a[0], SV) and getattr(it, "opaque_loops", False):
+            return Opaque("list(unknown)")
         if hasattr(a[0], "sym_list"):
             return a[0].sym_list(it)
         return list(it.iterate(a[0]))
@@ -231,10 +237,14 @@ def install(it):
     def _tuple(it, *a):
         if not a:
             return ()
+        if isinstance(a[0], Opaque):
+            return Opaque(f"tuple({a[0].why})")
         return tuple(it.iterate(a[0]))
 
     @nat("sorted")
     def _sorted(it, x, key=None, reverse=False):
+        if isinstance(x, Opaque):
+            return Opaque(f"sorted({x.why})")
         items = it.iterate(x)
         if key is not None:
             keyed = [(it.call(key, [e], {}), e) for e in items]
@@ -248,6 +258,8 @@ def install(it):
 
     @nat("zip")
     def _zip(it, *a, strict=False):
+        if any(isinstance(x, Opaque) for x in a):
+            return Opaque("zip(...)")
         if a and all(hasattr(x, "generic_row") for x in a):
             from .arrays import ZipArr
             return ZipArr(it, list(a))
@@ -255,6 +267,8 @@ def install(it):
 
     @nat("enumerate")
     def _enumerate(it, x, start=0):
+        if isinstance(x, Opaque):
+            return Opaque(f"enumerate({x.why})")
         return list(enumerate(it.iterate(x), start))
 
     @nat("map")
@@ -315,6 +329,8 @@ def install(it):
 
     def _minmax(it, which, *a, **k):
         if len(a) == 1:
+            if isinstance(a[0], Opaque):
+                return Opaque(f"{which}({a[0].why})")
             if hasattr(a[0], "sym_minmax"):
                 return a[0].sym_minmax(it, which)
             items = it.iterate(a[0])
@@ -607,11 +623,28 @@ def install(it):
         return False
     it.isnan = isnan
 
+    class _Generic:
+        def __class_getitem__(cls, item):
+            return cls
+    it.stub_modules["typing"] = Namespace("typing", {"Generic": _Generic, "TypeVar": Native(lambda it, *a, **k: Opaque("TypeVar"), name="TypeVar"),
+                                                     "TYPE_CHECKING": False},
+                                          default=lambda attr: Opaque(f"typing.{attr}"))
+    import abc as _abc
+    it.stub_modules["abc"] = Namespace("abc", {"ABC": _abc.ABC, "abstractmethod": Native(lambda it, f: f, name="abstractmethod"),
+                                               "ABCMeta": _abc.ABCMeta})
     it.stub_modules["sys"] = Opaque("sys")
     it.stub_modules["os"] = Opaque("os")
     it.stub_modules["time"] = Namespace("time", default=lambda attr: Native(lambda it, *a, **k: Opaque("time"), name="time"))
     it.stub_modules["numbers"] = __import__("numbers")
-    it.stub_modules["collections"] = collections
+    def _defaultdict(it, factory=None, *a, **k):
+        d = PDict()
+        d.factory = factory
+        if a:
+            it.dict_update(d, a[0])
+        return d
+    it.stub_modules["collections"] = Namespace("collections", {"defaultdict": Native(_defaultdict, name="defaultdict"),
+                                                                "OrderedDict": b["dict"], "abc": collections.abc},
+                                               default=lambda attr: getattr(collections, attr))
     it.stub_modules["collections.abc"] = collections.abc
     it.stub_modules["functools"] = Namespace("functools", {
         "partial": Native(lambda it, f, *a, **k: Native(lambda it2, *a2, **k2: it2.call(f, list(a) + list(a2), {**k, **k2}), pure=False, name="partial"), name="partial"),
